@@ -18,6 +18,9 @@ pub(crate) struct PubSocket {
   core: Arc<SocketCore>,
   distributor: Distributor,
   pipe_read_to_endpoint_uri: RwLock<HashMap<usize, String>>,
+  /// Frames passed to send() with MORE, kept until the frame that ends the message arrives: a message is
+  /// distributed (matched against the subscriptions, queued or dropped at a high-water mark) as a whole.
+  pending_parts: parking_lot::Mutex<FrameBatch>,
 }
 
 impl PubSocket {
@@ -26,6 +29,7 @@ impl PubSocket {
       core,
       distributor: Distributor::new(),
       pipe_read_to_endpoint_uri: RwLock::new(HashMap::new()),
+      pending_parts: parking_lot::Mutex::new(FrameBatch::new()),
     }
   }
 }
@@ -66,6 +70,33 @@ impl ISocket for PubSocket {
     if !self.core.is_running() {
       return Err(ZmqError::InvalidState("Socket is closing".into()));
     }
+    // A message sent frame by frame is distributed as one unit: hold the frames that carry MORE. The
+    // frames leave `pending_parts` before anything is awaited, so a dropped future leaves nothing behind.
+    let msg = {
+      let mut parts = self.pending_parts.lock();
+      if msg.is_more() || !parts.is_empty() {
+        if parts.len() >= crate::message::MAX_USER_FRAMES_PER_MESSAGE {
+          *parts = FrameBatch::new();
+          return Err(ZmqError::InvalidMessage(format!(
+            "multipart message exceeds {} frames",
+            crate::message::MAX_USER_FRAMES_PER_MESSAGE
+          )));
+        }
+        let more = msg.is_more();
+        parts.push(msg);
+        if more {
+          return Ok(());
+        }
+        Err(std::mem::replace(&mut *parts, FrameBatch::new()))
+      } else {
+        Ok(msg)
+      }
+    };
+    let msg = match msg {
+      Ok(single_frame_message) => single_frame_message,
+      Err(frames) => return self.send_multipart(frames).await,
+    };
+
     let payload_preview_str = msg
       .data()
       .map(|d| String::from_utf8_lossy(&d.iter().take(20).copied().collect::<Vec<_>>()).into_owned())
